@@ -217,6 +217,21 @@ func main() {
 				useRef = true
 			}
 			assumptionsOut = pout
+			// thorough tier: the independent checker re-checks the property file and everything it depends on
+			if perr == nil && tier == "thorough" {
+				args := []string{"-silent", "-o"}
+				for _, d := range []string{"Model", "Generated", "Proofs", "Properties", "Corr"} {
+					args = append(args, "-Q", d, "")
+				}
+				args = append(args, id)
+				cout, cerr := sh(coqDir, 2500, "coqchk", args...)
+				sum := tail(strings.TrimSpace(cout), 600)
+				ctx.Extra["coqchk"] = sum
+				if cerr != nil || !strings.Contains(cout, "Axioms: <none>") {
+					brokenWhy = "coqchk does not accept the property file: " + sum
+					useRef = true
+				}
+			}
 		}
 	}
 	src, _ := os.ReadFile(filepath.Join(coqDir, propFile))
